@@ -145,7 +145,11 @@ def noncanonical_names_stage(c):
 
 
 def run(c):
+  # translator: the keys of every SQL query of sql_datastore.py, regenerated from the source (kernel-checked obligations)
+  from vcheck import sqlkeyscheck
+  sqlkeyscheck.translate(c)
   c.proof_stage()
+  sqlkeyscheck.stage(c)
   stores_stage(c)
   noncanonical_names_stage(c)
   # resource names: both datastores key everything by them (RAM parses, SQL matches the string)
